@@ -40,13 +40,19 @@ OPEN_STATEMENTS = [
     'documented contract (operator_a: identity / i^ j / normal-ordered i^ j^ i j; operator_b: identity / one-body / '
     'normal-ordered two-body), for every tolerance, in every ring with the CAR and on the Fock space '
     '(dc_commutator_sound_ring, dc_commutator_sound; helpers dc_one_body_one_body_sound_ring, '
-    'dc_one_body_two_body_sound, dc_two_body_two_body_sound, dc_three_body_insertion_sound); open: the out-of-spec '
-    'fallback branch (operands outside the contract; Corr + oracle on random out-of-spec operators)',
+    'dc_one_body_two_body_sound, dc_two_body_two_body_sound, dc_three_body_insertion_sound); the out-of-spec '
+    'fallback branch is proved for non-diagonal normal-ordered two-body terms of operator_a in the exact regime '
+    '(dc_commutator_fallback_sound_ring, dc_commutator_fallback_sound); open: other out-of-spec operands '
+    '(three-body, odd-length terms: Corr + oracle on random out-of-spec operators)',
     'trivially_double_commutes_dual_basis soundness holds only outside finding F07 (tdc_dual_sound_partial); '
-    'trivially_double_commutes_dual_basis_using_term_info: oracle only (all index-set / flag configurations on 4 modes)',
-    'bch_expand: exactness proved by kernel computation for orders <= 6 only (no general-order Dynkin '
-    'theorem); lifting from the free nilpotent algebra to every nilpotent algebra (universal property) '
-    'is not formalised (oracle: exact rational nilpotent matrices, orders <= 8, 2..5 operators)',
+    'trivially_double_commutes_dual_basis_using_term_info is proved sound for the grouped terms the caller builds '
+    '(two-mode hopping / number groups, single-mode external-potential terms) under the jellium promise '
+    '(term_info_sound_ring, term_info_sound); other index sets (three or more modes) are outside the theorem',
+    'bch_expand: exactness proved by kernel computation for orders <= 8 (bch_exact_upto_8_partial), lifted to every '
+    'nilpotent setting of class k <= 8 in any Q-algebra (bch_universal_upto_8: exp z = exp x exp y) and to any '
+    'number of operators through the recursive halving (bch_expand_sound_upto_8: exp z = exp x_0 ... exp x_{n-1} in '
+    'filtered algebras with F_{k+1} = 0); open: the statement for every order (Dynkin / BCH theorem in general); '
+    'the float coefficient table of the library is compared with the exact table to 1e-12',
 ]
 
 ACTIONS = {'qubit': ['X', 'Y', 'Z'], 'fermion': [0, 1], 'boson': [0, 1], 'quad': ['q', 'p']}
@@ -451,7 +457,7 @@ def stream_dual(ctx):
     F = of.FermionOperator
     st = Stream('dual-basis-predicates', 'all ordered pairs (784) and triples (21952; sampled in quick) of the 28 dual-basis '
                 'terms p^ p, p^ q, p^ q^ p q on 4 modes, random terms on 6 of 9 modes; all (index set, hopping flag) '
-                'configurations of ..._using_term_info on 4 modes with random coefficients; implementation = Model '
+                'configurations of ..._using_term_info on 4 modes (two-mode groups and single-mode external-potential terms) with random coefficients; implementation = Model '
                 'exactly; oracle: True => the (double) commutator is the zero map on Fock space; distinct = distinct '
                 'term tuples')
     B = Batch(ctx, st)
@@ -527,12 +533,16 @@ def stream_dual(ctx):
         check_pair(rt(), rt(), 6)
 
     # ..._using_term_info
-    sets = [frozenset(s) for s in itertools.combinations(range(4), 2)]
+    # two-mode groups and the single-mode external-potential terms (external_potential_at_end=True)
+    sets = [frozenset(s) for s in itertools.combinations(range(4), 2)] + [frozenset((i,)) for i in range(4)]
     configs = list(itertools.product(sets, sets, sets, [False, True], [False, True], [False, True], [False, True]))
     if ctx.tier == 'quick' and not ctx.drift:
-        configs = rng.sample(configs, 700)
+        configs = rng.sample(configs, 1100)
 
     def build(idx, hop, jell):
+        if len(idx) == 1:
+            (i,) = idx
+            return F(((i, 1), (i, 0)), dyadic(rng, max_num=3, max_pow=1, complex_p=0.0) + 4)
         i, j = sorted(idx, reverse=True)
         if hop:
             t = dyadic(rng, max_num=3, max_pow=1, complex_p=0.0)
@@ -557,7 +567,9 @@ def stream_dual(ctx):
             if m != r:
                 st.disagree('trivially_double_commutes_dual_basis_using_term_info', case, r, m)
         B.ask(dict(case, op='c07.term_info'), cbm)
-        if r:
+        meaningful = all(len(ix) == 2 or not hp for ix, hp in ((ia, ha), (ib, hb), (iap, hap)))
+        st.count('term_info:sizes=%d%d%d' % (len(ia), len(ib), len(iap)))
+        if r and meaningful:
             A, Bo, Ap = build(ia, ha, jell), build(ib, hb, jell), build(iap, hap, jell)
             ops = [enc_op('fermion', o.terms) for o in (A, Bo, Ap)]
             B.check({'op': 'spec.eq', 'alg': 'fermion', 'n': 4,
